@@ -171,7 +171,7 @@ def b_transport(draw):
         "diffusion_coefficient": ["1e-9", "5e-10"], "temperature_retardation_factor": ["3.0"], "lengths": ["0.5", "0.02"],
         "dispersivities": ["0.05", "0.002"], "punch_cells": ["1-2", "2"], "print_cells": ["1", "2-%d" % cells],
         "punch_frequency": ["2"], "print_frequency": ["2"], "correct_disp": ["true"], "initial_time": ["1000", "5e5"],
-        "warnings": ["false"], "thermal_diffusion": ["2.0 1e-6"], "multi_d": ["true 1e-9 0.3 0.05 1.0", "true 2e-9 0.5 0.0 2.0", "true 1e-9 0.3 0.05 1.0\n -interlayer_d true 0.09 0.01 150"],
+        "warnings": ["false"], "thermal_diffusion": ["2.0 1e-6"], "multi_d": ["true 1e-9 0.3 0.05 1.0", "true 2e-9 0.5 0.0 2.0"],
         "porosities": ["0.2"], "flow_direction": ["back", "diffusion_only", "forward"], "dump": ["c07_tr.dmp"], "dump_frequency": ["2"],
     }
     for o in draw(st.lists(st.sampled_from(sorted(opts)), min_size=1, max_size=6, unique=True)):
@@ -306,10 +306,18 @@ EXCLUSIVE = [{"transport", "advection"}, {"transport", "gas"}, {"transport", "ss
 
 # While the pinned tree keeps a DUMP request across LoadDatabase (dump_info is not re-initialised; reported), DUMP blocks are not
 # generated into histories.  Set to False once the defect is repaired in /repo.
-EXCLUDE_DUMP_IN_HISTORY = True
+EXCLUDE_DUMP_IN_HISTORY = False
 # KNOBS -logfile true sets PHRQ_io::log_on of the IPhreeqc object, which UnLoadDatabase does not reset (pr.logfile is reset):
 # the log channel stays enabled after the load (reported).  Not generated into histories while True.
 EXCLUDE_LOGFILE_IN_HISTORY = True
+# A COPY request read by a simulation that then fails (copy_entities never runs) stays in the copier members across the load and is
+# executed by the first later simulation that contains a COPY (reported).  No COPY inside the failing call while True.
+EXCLUDE_COPY_IN_FAILING_CALL = True
+# A RUN_CELLS request read by a simulation that fails before run_as_cells stays in run_info across the load and is executed by the
+# load's own test run ("Beginning of run as cells." in the output string right after LoadDatabase; reported).
+EXCLUDE_RUNCELLS_IN_FAILING_CALL = True
+# the PITZER keyword in a run on a non-Pitzer database leaves the instance in a state where later runs of the same history can hang
+PITZER_DBS = ["pitzer.dat", "frezchem.dat", "ColdChem.dat"]
 
 
 def blocks_for_db(db):
@@ -320,11 +328,17 @@ def blocks_for_db(db):
 
 
 @st.composite
-def gen_input(draw, db, max_sims=2, history=True):
+def gen_input(draw, db, max_sims=2, history=True, nocopy=False, noruncells=False):
     """-> {"text":..., "tags":[...]}: 1..max_sims simulations, each with SOLUTION 0-12 and 1-4 option/entity blocks"""
     avail = blocks_for_db(db)
     if history and EXCLUDE_DUMP_IN_HISTORY:
         avail = [a for a in avail if a != "dump"]
+    if db not in PITZER_DBS:
+        avail = [a for a in avail if a != "pitzer"]
+    if nocopy:
+        avail = [a for a in avail if a != "copy"]
+    if noruncells:
+        avail = [a for a in avail if a != "runcells"]
     sims, tags = [], []
     for k in range(draw(st.integers(1, max_sims))):
         names = draw(st.lists(st.sampled_from(avail), min_size=1, max_size=4, unique=True))
@@ -397,13 +411,14 @@ def fail_step(draw, db):
     pre = ""
     tags = ["fail"]
     if draw(st.booleans()):
-        g = draw(gen_input(db, 1))
+        g = draw(gen_input(db, 1, nocopy=EXCLUDE_COPY_IN_FAILING_CALL, noruncells=EXCLUDE_RUNCELLS_IN_FAILING_CALL))
         pre = g["text"]
         tags += g["tags"]
     # option blocks inside the failing simulation itself: they are read before the error stops the run
     inner = []
     for n in draw(st.lists(st.sampled_from(["knobs", "print", "title", "incr", "calc", "dump", "delete", "runcells", "copy", "selout"]), max_size=2, unique=True)):
-        if n == "dump" and EXCLUDE_DUMP_IN_HISTORY:
+        if (n == "dump" and EXCLUDE_DUMP_IN_HISTORY) or (n == "copy" and EXCLUDE_COPY_IN_FAILING_CALL) or \
+                (n == "runcells" and EXCLUDE_RUNCELLS_IN_FAILING_CALL):
             continue
         if n in blocks_for_db(db) and not (n == "incr" and "REACTION" in sim) and not (n == "knobs" and "KNOBS" in sim):
             inner += b_knobs(draw, True) if n == "knobs" else BLOCKS[n][0](draw)
@@ -679,6 +694,8 @@ def history_model(case):
 
 DUMP_RE = re.compile(r"(?im)^\s*DUMP\b")
 LOGFILE_RE = re.compile(r"(?im)^\s*-log_?file\b")
+COPY_RE = re.compile(r"(?im)^\s*COPY\b")
+RUNCELLS_RE = re.compile(r"(?im)^\s*RUN_CELLS\b")
 
 
 def excluded_history_text(t):
@@ -712,6 +729,10 @@ def check_case(case, ctx):
         if case["fail"]:
             s = case["fail"]
             why = excluded_history_text(step_text(s)) if s["op"] == "run" else None
+            if why is None and EXCLUDE_COPY_IN_FAILING_CALL and s["op"] == "run" and COPY_RE.search(step_text(s)):
+                why = "copy_in_failing_call"
+            if why is None and EXCLUDE_RUNCELLS_IN_FAILING_CALL and s["op"] == "run" and RUNCELLS_RE.search(step_text(s)):
+                why = "run_cells_in_failing_call"
             if why:
                 raise Discard(why)
             rc = do_step(H, s, wdh, k + 1)
